@@ -248,11 +248,28 @@ class _GuardWalk:
 
     def operand(self, node, facts, stmt) -> str:
         if isinstance(node, ast.Name) and node.id in self.env:
+            if self.env[node.id] is None:
+                fail(stmt, f"{self.fn.name}: {node.id!r} was bound inside a conditional block that has ended")
             ex, may_raise, n_emitted, path = self.env[node.id]
             if may_raise and (set(path) != set(facts) or n_emitted != self.n_at_stmt):
                 fail(stmt, f"{self.fn.name}: {node.id!r} is computed under other conditions than the comparison that uses it")
             return ex
-        return _expr(node, self.sides, {k: v[0] for k, v in self.env.items()}, self.helpers)
+        return _expr(node, self.sides, self.plain_env(stmt), self.helpers)
+
+    def plain_env(self, stmt):
+        return {k: v[0] for k, v in self.env.items() if v is not None}
+
+    def scoped(self, stmts, path) -> bool:
+        """walk a conditional block: what it binds is not visible afterwards"""
+        before = dict(self.env)
+        r = self.walk(stmts, path)
+        for k, v in list(self.env.items()):
+            if before.get(k) is not v:
+                self.env[k] = None
+        for k, v in before.items():
+            if self.env.get(k) is not None and self.env[k] is not v:
+                self.env[k] = None
+        return r
 
     def emit(self, cond_rows, stmt):
         for facts, (neg, a) in cond_rows:
@@ -271,11 +288,11 @@ class _GuardWalk:
     def bind(self, st, path):
         tg = st.targets[0] if isinstance(st, ast.Assign) else st.target
         val = st.value
-        env0 = {k: v[0] for k, v in self.env.items()}
+        env0 = self.plain_env(st)
 
         def new(name, ex, src):
-            if name in self.env or name in BOUNDS or name in self.sides:
-                fail(st, f"{self.fn.name}: {name!r} is bound more than once")
+            if name in BOUNDS or name in self.sides:
+                fail(st, f"{self.fn.name}: the parameter {name!r} is rebound")
             # `<range>.time` exists on 3D ranges only: the range must be known to be 3D where it is read
             for var, side in self.sides.items():
                 if f"{side} DTime" in ex and not (var in path or (var == "self" and self.fn_is_3d)):
@@ -329,7 +346,7 @@ class _GuardWalk:
                 other = st.orelse if body_raises else st.body
                 # the raising branch is covered by the rows just emitted: the other branch and what follows run when
                 # none of them fired, which is what "later rows" means
-                if self.walk(other, path):
+                if self.scoped(other, path) if other else False:
                     return True
                 continue
             # no immediate raise: only `isinstance` facts may select a sub-block
@@ -339,7 +356,7 @@ class _GuardWalk:
                 fail(st, f"{self.fn.name}: a block of guards may only depend on the ranges being 3D")
             if st.orelse:
                 fail(st, f"{self.fn.name}: `else` of a block of guards")
-            if self.walk(st.body, path + [x[2][1] for x in facts]):
+            if self.scoped(st.body, path + [x[2][1] for x in facts]):
                 fail(st, f"{self.fn.name}: a conditional block leaves the function")
         return False
 
@@ -589,8 +606,34 @@ def _call_sites(tree) -> tuple[str, str]:
 
 # ------------------------------------------------------------------------------------------ weights
 
+def _deref(node, fn, depth=0):
+    """a Name bound exactly once in `fn` (plain assignment, never stored into / updated in place) -> the expression it
+    names (named intermediate results); anything else is returned unchanged"""
+    while isinstance(node, ast.Name) and depth < 4:
+        vals = _assignments(fn.body).get(node.id, [])
+        params = {a.arg for a in fn.args.args + fn.args.kwonlyargs}
+        touched = any(isinstance(n, (ast.Subscript, ast.Attribute)) and isinstance(n.ctx, (ast.Store, ast.Del))
+                      and isinstance(n.value, ast.Name) and n.value.id == node.id for n in ast.walk(fn))
+        touched = touched or any(isinstance(n, ast.AugAssign) and isinstance(n.target, ast.Name) and n.target.id == node.id
+                                 for n in ast.walk(fn))
+        loopvar = any(isinstance(n, (ast.For, ast.comprehension)) and any(isinstance(e, ast.Name) and e.id == node.id
+                                                                        for e in ast.walk(n.target)) for n in ast.walk(fn))
+        if len(vals) != 1 or vals[0][1] is not None or node.id in params or touched or loopvar \
+                or isinstance(vals[0][0], (ast.Dict, ast.List, ast.Set)):
+            return node
+        node, depth = vals[0][0], depth + 1
+    return node
+
+
 def _is_cfg_weights(st) -> bool:
-    return _kw_call(st, "self._configure_weights", {"weights": "weights", "weights_from_file": "weights_from_file"})
+    if not (isinstance(st, ast.Expr) and isinstance(st.value, ast.Call) and ast.unparse(st.value.func) == "self._configure_weights"):
+        return False
+    c = st.value
+    got = dict(zip(("weights", "weights_from_file"), (ast.unparse(a) for a in c.args)))
+    if len(c.args) > 2 or any(k.arg is None or k.arg in got for k in c.keywords):
+        return False
+    got.update({k.arg: ast.unparse(k.value) for k in c.keywords})
+    return got == {"weights": "weights", "weights_from_file": "weights_from_file"}
 
 
 def _weights_conf(tree) -> str:
@@ -631,12 +674,27 @@ def _weights_conf(tree) -> str:
     args = list(fulls[0].args)
     shape = kw.get("shape", args[0] if args else None)
     fill = kw.get("fill_value", args[1] if len(args) > 1 else None)
-    if shape is None or fill is None or ast.unparse(fill) != "self.weighting[processor_id]":
+    shape, fill = (None if x is None else _deref(x, ff) for x in (shape, fill))
+    # the index of the pair: the loop's counter
+    loops = [n for n in ast.walk(ff) if isinstance(n, ast.For)]
+    idx = None
+    if len(loops) == 1 and isinstance(loops[0].target, ast.Tuple) and isinstance(loops[0].target.elts[0], ast.Name) \
+            and ast.unparse(loops[0].iter.func if isinstance(loops[0].iter, ast.Call) else loops[0].iter) == "enumerate":
+        idx = loops[0].target.elts[0].id
+    if shape is None or fill is None or idx is None or ast.unparse(fill) != f"self.weighting[{idx}]":
         fail(fulls[0], "np.full(shape=..., fill_value=self.weighting[processor_id]) expected")
     src = ast.unparse(shape)
     geo = ("processor.detector.geometry.row", "processor.detector.geometry.col")
+    # the loop's target variable / the restricted result of this pair
+    tname = loops[0].target.elts[1].elts[1].id if isinstance(loops[0].target.elts[1], ast.Tuple) \
+        and len(loops[0].target.elts[1].elts) == 2 and isinstance(loops[0].target.elts[1].elts[1], ast.Name) else None
+    sims = [n.targets[0].id if isinstance(n, ast.Assign) else n.target.id for n in ast.walk(ff)
+            if isinstance(n, (ast.Assign, ast.AnnAssign)) and n.value is not None and isinstance(n.value, ast.Call)
+            and ast.unparse(n.value.func) == "self._get_simulated_data"
+            and isinstance(n.targets[0] if isinstance(n, ast.Assign) else n.target, ast.Name)]
+    names = [x for x in [tname] + sims if x]
     # (the restricted result has the target's shape up to a leading axis of length 1 whenever a fitness is computed)
-    if src in ("target_data.shape", "np.shape(target_data)", "tuple(target_data.shape)", "simulated_data.shape"):
+    if any(src in (f"{x}.shape", f"np.shape({x})", f"tuple({x}.shape)") for x in names):
         sh = "ShTarget"
     elif isinstance(shape, ast.Tuple) and tuple(ast.unparse(e) for e in shape.elts) == geo:
         sh = "ShDetector"
@@ -651,11 +709,13 @@ def _time_key(tree) -> bool:
     """Are the target data and the weights read from file restricted with the target range's time component under
     their own dimension name 'readout_time'?  `X.isel(indexers=<range>.to_dict())` -> False;
     `X.isel(indexers=_target_indexers(<range>))` with `_target_indexers` renaming 'time' to 'readout_time' -> True."""
-    def indexer_kind(call, rng_src):
+    def indexer_kind(call, rng_src, fn):
         kw = {k.arg: k.value for k in call.keywords}
-        if call.args or set(kw) != {"indexers"}:
+        if len(call.args) == 1 and not kw:
+            kw = {"indexers": call.args[0]}
+        if call.args and "indexers" not in kw or set(kw) != {"indexers"}:
             fail(call, "isel(indexers=...) expected")
-        src = ast.unparse(kw["indexers"])
+        src = ast.unparse(_deref(kw["indexers"], fn))
         if src == f"{rng_src}.to_dict()":
             return False
         if src == f"_target_indexers({rng_src})":
@@ -680,16 +740,18 @@ def _time_key(tree) -> bool:
     init = find_func(tree, "__init__", cls="ModelFittingDataTree")
     tsel = [n.value for n in ast.walk(init) if isinstance(n, ast.Assign) and len(n.targets) == 1
             and ast.unparse(n.targets[0]) == "self.all_target_data" and isinstance(n.value, ast.Call)
-            and ast.unparse(n.value.func) == "targets.isel"]
+            and isinstance(n.value.func, ast.Attribute) and n.value.func.attr == "isel"
+            and isinstance(n.value.func.value, ast.Name)]
     if len(tsel) != 1:
         fail(init, "expected one `self.all_target_data = targets.isel(indexers=...)`")
     cw = find_func(tree, "_configure_weights", cls="ModelFittingDataTree")
     wsel = [n.value for n in ast.walk(cw) if isinstance(n, ast.Assign) and len(n.targets) == 1
             and ast.unparse(n.targets[0]) == "self.weighting_from_file" and isinstance(n.value, ast.Call)
-            and ast.unparse(n.value.func) == "weights_data_array.isel"]
+            and isinstance(n.value.func, ast.Attribute) and n.value.func.attr == "isel"
+            and isinstance(n.value.func.value, ast.Name)]
     if len(wsel) != 1:
         fail(cw, "expected one `self.weighting_from_file = weights_data_array.isel(indexers=...)`")
-    kt, kw_ = indexer_kind(tsel[0], "target_fit_range"), indexer_kind(wsel[0], "self.targ_fit_range")
+    kt, kw_ = indexer_kind(tsel[0], "target_fit_range", init), indexer_kind(wsel[0], "self.targ_fit_range", cw)
     if (kt or kw_) and fi is None:
         fail(init, "_target_indexers is not defined")
     if kt != kw_:
